@@ -114,6 +114,9 @@ class Body:
             if v[0] == 'ureal':
                 if isinstance(e.op, ast.USub): return p, ('rexp', '(RUn U_neg %s)' % v[1])
                 if isinstance(e.op, ast.UAdd): return p, ('rexp', '(RUn U_pos %s)' % v[1])
+            if v[0] == 'rexp' and self.kind == 'rc':
+                if isinstance(e.op, ast.USub): return p, ('rexp', '(RNestUn U_neg %s)' % v[1])
+                if isinstance(e.op, ast.UAdd): return p, ('rexp', '(RNestUn U_pos %s)' % v[1])
             raise Untranslatable('unary op on %s' % v[0])
         if isinstance(e, ast.BinOp):
             pl, vl = self.expr(e.left)
